@@ -154,7 +154,7 @@ extern "C" int vf_run_case(const uint8_t * data, size_t size)
    static CompleteSetupSystem * css = NULL; if (css == NULL) {css = new CompleteSetupSystem; SetConsoleLogLevel(MUSCLE_LOG_NONE); g_devnull = fopen("/dev/null", "w");}
    if (size < 4) return 0;
    vf::BS bs(data, size);
-   const int kind = bs.u8()%G_COUNT; const uint8_t src = bs.u8()%8;
+   const int kind = bs.u8()%G_COUNT; const uint8_t srcByte = bs.u8(); const uint8_t src = srcByte%8; const uint32 amplify = ((srcByte>>3) >= 24) ? (uint32)(((srcByte>>3)-23)*3) : 1;
    std::string wire; std::vector<size_t> frameStarts; std::deque<std::string> packets; uint32 nmut = 0;
    const int produceKind = (kind == G_MINI_C)||(kind == G_MICRO_C) ? G_BIN_UNLIMITED : ((kind == G_WS_NOHANDSHAKE) ? G_BIN_UNLIMITED : kind);
    if (src == 0) {while(bs.left() > 40) wire.push_back((char)bs.u8()); if ((kind == G_TUNNEL)||(kind == G_MINITUNNEL)) {size_t p = 0; while(p < wire.size()) {const size_t l = 1+((uint8_t)wire[p])%120; packets.push_back(wire.substr(p, l)); p += l;}} vf::Count("source_raw_bytes");}
@@ -169,6 +169,8 @@ extern "C" int vf_run_case(const uint8_t * data, size_t size)
       }
       else vf::Count("source_valid_stream");
    }
+   // a quarter of the stream cases is the same stream 3..24 times over (up to 20000 bytes), so that single reads can fill the gateways' scratch buffers (2048 bytes and up) completely
+   if ((amplify > 1)&&(wire.size())&&(packets.empty())) {const std::string once = wire; for (uint32 i=1; (i<amplify)&&(wire.size()+once.size() <= 20000); i++) wire += once; vf::Count("source_stream_repeated_to_fill_scratch_buffers"); if (wire.size() >= 2048) vf::Count("case_stream_of_2048_bytes_or_more");}
    const uint64_t inHash = vf::HashStr(wire, (uint64_t)kind*131+packets.size());
    uint64_t ph = inHash; for (size_t i=0; i<packets.size(); i++) ph = vf::HashStr(packets[i], ph);
 
